@@ -342,6 +342,17 @@ def overrides(cx, chk, cfg, F, rule="C14.R7"):
             if not fn or fn.get("kind") != "AssocFn":
                 continue
             n += 1
+            short = im["self_head"].split("::")[-1]
+            if fn["name"] == "len" and im["trait"] == "core::iter::ExactSizeIterator" and F.body(fn["path"]) is not None:
+                # an explicit ExactSizeIterator::len does not move the cursor; it must be the countdown
+                pre = ("inner",) if short in WRAP else ()
+                want = (("load", ("H", SELF, pre + ("len",)), 0), ("proj", SELF, pre + ("len",)))
+                rets = [p.ret for p in cx.paths(cfg, fn["path"])]
+                if rets and all(r in want for r in rets):
+                    chk.ob(rule, "%s:%s::len" % (cfg, short), "returns the countdown")
+                else:
+                    chk.violation("C14.R2", "%s|len" % short, "%s::len returns %s, not the countdown len" % (short, fmt_val(rets[0])[:60] if rets else "?"), fn["span"]["file"], fn["span"]["lo"], fn["q"], None, cfg)
+                continue
             if fn["name"] in VERIFIED_OVERRIDES[im["trait"]]:
                 chk.ob(rule, "%s:%s::%s" % (cfg, im["self_head"].split("::")[-1], fn["name"]), "decided by R1/R2")
             else:
